@@ -26,3 +26,13 @@ func VerifAllowStaleRead(on bool) {
 		atomic.StoreInt32(&allowStaleRead, 0)
 	}
 }
+
+// VerifPauseRaft cuts this server off from its raft peers (rafthttp Transport.Pause: nothing is
+// sent, what arrives is dropped) or reconnects it.  A partition nemesis across processes.
+func (s *Server) VerifPauseRaft(on bool) {
+	if on {
+		s.raftTransport.Pause()
+	} else {
+		s.raftTransport.Resume()
+	}
+}
